@@ -29,6 +29,9 @@ Proof.
   all: destruct emb; unfold panic; dfin D.
 Qed.
 
+Lemma invD_if_ph : forall P c2 (b : bool) f, invD P c2 -> invD P (if b then set_aq_ph f c2 else c2).
+Proof. intros P c2 b f H. destruct b; auto. destruct H; constructor; auto. Qed.
+
 Lemma invD_step : forall P c t c', inv P c -> invA P c -> invD P c -> step P c t = Some c' -> invD P c'.
 Proof.
   intros P c t c' I A D H. destruct t; simpl in H.
@@ -57,7 +60,7 @@ Proof.
         destruct (ierr c c0); inv_some.
         -- assert (Hr : ipc c (proot c c1) <> INone) by (apply (d_root _ _ D); congruence). dfin D.
         -- assert (Hr : ipc c (proot c c1) <> INone) by (apply (d_root _ _ D); congruence).
-           apply invD_deliver; [|cbn; congruence]. dfin D.
+           apply invD_if_ph. apply invD_deliver; [|cbn; congruence]. dfin D.
       * inv_some. dfin D.
     + inv_some. dfin D.
     + inv_some. unfold all_free, panic. cbn -[set_nth has_ongoing].
@@ -97,4 +100,5 @@ Proof.
     + destruct (drain c); [destruct (has_ongoing (ongoing c))|..]; inv_some; unfold panic; dfin D.
     + destruct (drain c); inv_some. dfin D.
     + inv_some. dfin D.
+  - unfold step_drain_ack in H. destruct (aq_ph c a); inv_some. dfin D.
 Qed.
